@@ -521,6 +521,11 @@ fn interpolate(lit: &str, expressions: &[Core]) -> String {
             string.push(c);
         } else if in_expr && build_cur_expr > 0 {
             cur_expr.push(c);
+        } else if back_slash && !in_expr && (c == '{' || c == '}') {
+            // an escaped bracket is a bracket: Python spells that by doubling it
+            string.pop();
+            string.push(c);
+            string.push(c);
         } else {
             string.push_str(&cur_expr);
             cur_expr.clear();
